@@ -1205,6 +1205,8 @@ def run(ctx):
 
 
 def replay(obj):
+    if obj.get("kind") in ("no-failing-input-found", "correspondence") or obj.get("correspondence"):
+        return vlib.replay_correspondence(obj)
     r = obj.get("replay", obj)
     print(json.dumps({k: v for k, v in obj.items() if k != "replay"}, indent=1)[:2000])
     req = r.get("request")
